@@ -273,6 +273,10 @@ class P:
             if self.at("(") and e[0] == "path":
                 e = ("call", e[1], self.args())
                 continue
+            if self.at("?"):
+                self.next()
+                e = ("try", e)
+                continue
             return e
 
     def skip_generics(self):
